@@ -14,6 +14,10 @@ PROP = 'C12'
 NCB = 3
 SETTLE = 0.0005
 EARLY = 1e-4
+# the library advances a periodic deadline by `deadline += delta` on clock values of the magnitude of time.time()
+# (1.7e9 s: one unit in the last place is 2**-22 s = 0.24 us); every addition rounds by up to half a unit, so after k
+# periods the grid may be off by k * 0.12 us either way.  This is double-precision rounding, not drift in the property's sense.
+HALF_ULP = 2.0 ** -23
 
 
 class Cookie:
@@ -182,10 +186,10 @@ class H:
                 if len(got) > 1:
                     probs.append("one-shot %s was called %d times" % (name, len(got)))
                 due = r['t_add'] + r['delta']
-                if stop is not None and due > stop:
-                    continue                # due at / after the removal: the call is optional
                 ex = excused(due)
                 allow = (ex + lam) if ex is not None else due + lam
+                if stop is not None and allow > stop:
+                    continue                # not yet overdue when the removal was entered: the call is optional
                 if not got:
                     if allow < now:
                         probs.append("%s call 1 due %.4f s after registration has not happened %.4f s after it"
@@ -198,25 +202,32 @@ class H:
             k = 1
             while True:
                 due = r['t_add'] + k * d
-                if (stop is not None and due > stop) or due + lam > now:
-                    break
+                if (stop is not None and due + lam + k * HALF_ULP > stop) or due + lam > now:
+                    break                   # not yet overdue when the removal was entered / at the time of judging
                 if excused(due, d) is None:
-                    if not any(due - EARLY <= t <= due + lam for t in got):
-                        late = [t for t in got if t > due + lam]
+                    tol = k * HALF_ULP
+                    if not any(due - EARLY - tol <= t <= due + lam + tol for t in got):
+                        late = [t for t in got if t > due + lam + tol]
                         probs.append("%s call due %d periods after registration %s" % (
                             name, k, ("served %.1f ms late" % ((late[0] - due) * 1e3)) if late else "has not happened"))
                         break
                 k += 1
             ngrid = 0
             for t in got:
-                kk = int((t - r['t_add'] + EARLY) / d)
-                g = r['t_add'] + kk * d
-                on_grid = kk >= 1 and g - EARLY <= t <= g + lam
+                k0 = int((t - r['t_add']) / d)
+                on_grid = False
+                for kk in (k0, k0 + 1):
+                    g = r['t_add'] + kk * d
+                    if kk >= 1 and g - EARLY - kk * HALF_ULP <= t <= g + lam + kk * HALF_ULP:
+                        on_grid = True
+                        break
+                g = r['t_add'] + k0 * d
                 if not on_grid and not any(b1 - EARLY <= t <= b1 + lam + 1e-3 for (b0, b1) in busy):
                     probs.append("%s called %.4f s after registration: %.2f ms off its period grid (drift)" % (
                         name, t - r['t_add'], (t - g) * 1e3))
                     break
             npts = int((now - r['t_add'] + EARLY) / d) if stop is None else int((min(now, end) - r['t_add'] + EARLY) / d)
+            npts = int((min(now, end if stop is not None else now) - r['t_add'] + EARLY + (npts + 1) * HALF_ULP) / d)
             if len(got) > npts:
                 probs.append("%s was called %d times in %d periods" % (name, len(got), npts))
         return probs
@@ -270,6 +281,17 @@ def probe(hist):
 DELTAS_Q = [0.01, 0.02, 0.5]
 DELTAS_T = [0.001, 0.01, 0.02, 0.5, 3.0]
 _MODE = {'tier': 'quick'}
+
+
+# histories in which a fast timer keeps the job thread passing on the clock's microsecond grid, so that a pass's time stamp
+# coincides exactly with the deadline of a slower periodic timer (the boundary of the library's overrun loop); judged with
+# their look-ahead in both tiers
+COINCIDING = [
+    [('add', 0, 0.001, True), ('in', 0, ('add', 0, 0.01, False)), ('add', 0, 0.02, True)],
+    [('add', 0, 0.001, True), ('in', 0, ('add', 0, 0.01, False)), ('add', 0, 0.01, True)],
+    [('add', 0, 0.001, True), ('add', 1, 0.01, True), ('add', 2, 0.02, True)],
+    [('add', 1, 0.001, True), ('add', 0, 0.02, True), ('gap', 0.0005), ('add', 2, 0.01, True)],
+]
 
 
 def alphabet(hist):
@@ -326,7 +348,8 @@ RULE = ("state = canonical form of the real ECU (timer list with deadlines relat
         "with a period from the grid, remove_timer, subscribe, unsubscribe, the same issued from inside a callback, idle gap); "
         "every distinct state is judged against the reference timer list now, 0.7 s and 5.2 s later")
 ASSUME = ["scheduling latency = the configured job-thread wake latency (0.05 ms or 2 ms) + 0.6 ms",
-          "a call due at or after remove_timer was entered is optional; calls 0.1 ms early are tolerated (clock tick noise)",
+          "the k-th point of a period grid is judged with k * 0.12 us slack (double-precision rounding of deadline += delta at clock values ~1.7e9)",
+          "a call that was not yet overdue (due + scheduling latency) when remove_timer was entered is optional; calls 0.1 ms early are tolerated (clock tick noise)",
           "3 timer callbacks, 2 message callbacks; periods {10,20,500 ms} quick, {1,10,20,500,3000 ms} thorough"]
 
 
@@ -344,8 +367,9 @@ def run(tier, seed):
     try:
         for eps in (50e-6, 2e-3):
             cfg = ('cfg', eps)
-            depth = 2 if quick else (4 if eps == 50e-6 else 3)
-            r = mc.bfs('vf.props.c12', [[cfg]], lambda i, d=depth: d, acc, probe=True, sig=csig)
+            depth = 2 if quick else 3
+            roots = [[cfg]] + [[cfg] + list(h) for h in COINCIDING]
+            r = mc.bfs('vf.props.c12', roots, lambda i, d=depth: d if i == 0 else 0, acc, probe=True, sig=csig)
             info['wake_latency=%g' % eps] = {'states_per_level': r['levels'], 'depth_completed': r['depth_completed'],
                                             'frontier_emptied': r['frontier_emptied'], 'alphabet': len(alphabet([cfg]))}
             for dig, h in list(r['seen'].items())[-2:]:
@@ -354,7 +378,7 @@ def run(tier, seed):
                 nontrivial.add(hash(dig))
         # restricted alphabet {add, remove, gap} deeper
         cfg = ('cfg', 50e-6)
-        depth = 4 if quick else 7
+        depth = 4 if quick else 5
         r = mc.bfs('vf.props.c12r', [[cfg]], lambda i, d=depth: d, acc, probe=True, sig=csig)
         info['restricted alphabet'] = {'states_per_level': r['levels'], 'depth_completed': r['depth_completed'],
                                        'frontier_emptied': r['frontier_emptied'], 'alphabet': len(alphabet_restricted([cfg]))}
@@ -366,7 +390,7 @@ def run(tier, seed):
     acc.extra['per_configuration'] = info
     return report(PROP, tier, seed, 'model_checking', acc, nontrivial, outcomes, RULE, ASSUME, t0,
                   exhaustive=False, mc=True, nitems=3,
-                  bounds={'depth_full_alphabet': 2 if quick else 4, 'depth_restricted_alphabet': 4 if quick else 7})
+                  bounds={'depth_full_alphabet': 2 if quick else 3, 'depth_restricted_alphabet': 4 if quick else 5})
 
 
 def replay(rec):
